@@ -279,9 +279,7 @@ fn check(w: &World, cache: &FreshCache, last: &Op) -> Option<(String, String)> {
   }
   let fresh = fresh_errors(cache, &w.model);
   for (i, name) in MODS.iter().enumerate() {
-    if !w.model.contains_key(*name) {
-      continue;
-    }
+    // absent modules are compared too: a fresh server holds nothing for a name that has no file
     let inc = rendered_errors_of(&w.state, &w.refs[i]);
     let want = fresh.get(*name).cloned().unwrap_or_default();
     if inc != want {
